@@ -56,10 +56,36 @@ def _dc():
     return DriftCorrection
 
 
-def make_image(shape, seed, k=0):
+CONTENT = ["single_pixel", "sparse", "zero_block", "zeros", "const", "integers", "rows_equal", "negative"]
+
+
+def make_image(shape, seed, k=0, content=None):
     H, W = shape
     y, x = np.mgrid[:H, :W].astype(float)
     rng = np.random.default_rng([seed, 15, H, W, k])
+    if content is not None:
+        # image CONTENT that data-dependent branches key on; the geometry and the weight map may not depend on it
+        if content == "single_pixel":
+            im = np.zeros(shape)
+            im[(H // 3 + k) % H, (W // 2 + k) % W] = 3.0
+        elif content == "sparse":  # more than half of the pixels exactly zero
+            im = np.where(rng.random(shape) < 0.25, np.round(rng.random(shape) * 4 + 1), 0.0)
+        elif content == "zero_block":  # an all-zero block over more than half of the frame
+            im = 1.0 + rng.random(shape)
+            im[: (2 * H) // 3 + 1, :] = 0.0
+        elif content == "zeros":
+            im = np.zeros(shape)
+        elif content == "const":
+            im = np.full(shape, 2.0)
+        elif content == "integers":
+            im = np.round(rng.random(shape) * 7)
+        elif content == "rows_equal":
+            im = np.tile((np.arange(H) % 3 + 1.0)[:, None], (1, W))
+        elif content == "negative":
+            im = -1.0 - rng.random(shape)
+        else:
+            raise ValueError(content)
+        return im
     return np.exp(-((y - 0.4 * H) ** 2 + (x - 0.55 * W) ** 2) / (2 * (0.2 * min(H, W)) ** 2)) + 0.15 * rng.random(shape)
 
 
@@ -74,9 +100,9 @@ def closed_form(shape, canvas, theta_deg):
     return xa, ya
 
 
-def build(shape, angles, pad, knots, sigma, seed, identical=False):
+def build(shape, angles, pad, knots, sigma, seed, identical=False, content=None):
     DC = _dc()
-    ims = [make_image(shape, seed, 0 if identical else k) for k in range(len(angles))]
+    ims = [make_image(shape, seed, 0 if identical else k, content) for k in range(len(angles))]
     with warnings.catch_warnings():
         warnings.simplefilter("ignore")
         dc = DC.from_data([im.copy() for im in ims], list(angles)).preprocess(pad_fraction=pad, number_knots=knots, kde_sigma=sigma, pad_value="mean")
@@ -122,6 +148,26 @@ def w_geometry(item, seed=0):
                 if tuple(np.shape(w_u)) != (canvas[0] * up, canvas[1] * up) or rel > TOL_WEIGHT:
                     t.fail({"relation": "weight_map_sums_to_pixel_count", "upsample": up}, dict(case, image=i, upsample=up), f"upsample={up}: weight map shape {np.shape(w_u)} sum {wsum:.6f}, expected shape {(canvas[0] * up, canvas[1] * up)} sum {shape[0] * shape[1]}")
         t.case(key=case, nontrivial=nontrivial, outcome=[round(float(dc.knots[0][0].ravel()[0]), 6), round(float(dc.knots[0][1].ravel()[-1]), 6), canvas])
+    # image CONTENT (data-dependent branches): the geometry and the weight map do not depend on what the image holds
+    # (content x {1, 3} knots on the lattice points with two images and the middle padding, all shapes and angles)
+    for content in CONTENT if (nstack == 2 and pad in (0.25, 0.5)) else []:
+        for knots in (1, 3):
+            dc, ims = build(shape, angles, pad, knots, sigma, seed, content=content)
+            canvas = tuple(int(v) for v in dc.shape[1:])
+            case = dict(case0, knots=knots, content=content)
+            for i in range(nstack):
+                xa, ya = dc.interpolator[i].transform_coordinates(dc.knots[i])
+                ref = coords[(knots, i)]
+                e = max(float(np.abs(np.asarray(xa) - ref[0]).max()), float(np.abs(np.asarray(ya) - ref[1]).max())) if np.shape(xa) == ref[0].shape else np.inf
+                if e > TOL_GEOM:
+                    t.fail({"relation": "coordinates_independent_of_image_content", "content": content}, dict(case, image=i), f"shape={shape} angle={angles[i]} knots={knots}: coordinates for a {content} image differ from those for the generic image by {e:.3g} px")
+                for up, w_u in [(1, dc.weights_warped.array[i]), (2, dc.interpolator[i].warp_image(ims[i], dc.knots[i], upsample_factor=2)[1])]:
+                    wsum = float(np.asarray(w_u, dtype=np.float64).sum())
+                    rel = abs(wsum - shape[0] * shape[1]) / (shape[0] * shape[1])
+                    t.stat("weight_sum_rel_err", rel)
+                    if rel > TOL_WEIGHT:
+                        t.fail({"relation": "weight_map_sums_to_pixel_count", "upsample": up, "content": content}, dict(case, image=i, upsample=up), f"{content} image: weight map (upsample={up}) sums to {wsum:.6f}, image has {shape[0] * shape[1]} pixels (shape={shape} angle={angles[i]} knots={knots} sigma={sigma})")
+            t.case(key=case, nontrivial=True, outcome=[content, canvas])
     # differential oracle: 1, 2, 3, 4 knots describe the same straight lines
     for i in range(nstack):
         for knots in (2, 3, 4):
